@@ -96,6 +96,8 @@ pub trait Prop: Sync + Send {
     fn extra_evidence(&self) -> Value { json!({}) }
     /// Digest used to count distinct cases (default: hash of the JSON form).
     fn case_digest(&self, case: &Self::Case) -> u64 { digest(&serde_json::to_vec(case).unwrap_or_default()) }
+    /// (max steps, max seconds) spent shrinking one failure.
+    fn shrink_budget(&self) -> (usize, u64) { (3000, 20) }
     /// Run the exploration in worker processes (a case may abort the process).
     fn isolate(&self) -> bool { false }
     /// Maximum wall-clock seconds a single case may take before the watchdog trips.
@@ -301,11 +303,12 @@ impl<'a, P: Prop> Worker<'a, P> {
         let mut best_case = tree.current();
         let mut best = first.clone();
         let mut steps = 0usize;
-        let deadline = Instant::now() + Duration::from_secs(20);
+        let (max_steps, max_secs) = self.prop.shrink_budget();
+        let deadline = Instant::now() + Duration::from_secs(max_secs);
         if tree.simplify() {
             loop {
                 steps += 1;
-                if steps > 3000 || Instant::now() > deadline {
+                if steps > max_steps || Instant::now() > deadline {
                     break;
                 }
                 let cur = tree.current();
